@@ -39,6 +39,7 @@ import inspect
 import sys
 import textwrap
 import threading as _real_threading
+import time as _time
 import types
 from typing import Any, Callable, Iterable
 
@@ -817,7 +818,7 @@ def _code_objects(code: types.CodeType) -> list[types.CodeType]:
     return out
 
 
-def replay_real(unit: "Unit", thread_bodies: list[Callable[[], Any]], trace: list[tuple[int, str, int]], seg_ends: dict[int, str], timeout_s: float = 15.0, slack_s: float = 0.15) -> dict:
+def replay_real(unit: "Unit", thread_bodies: list[Callable[[], Any]], trace: list[tuple[int, str, int]], seg_ends: dict[int, str], timeout_s: float = 15.0, slack_s: float = 0.15, dynamic: bool = False) -> dict:
     """Run ``thread_bodies`` (plain callables that use the *unmodified* repository code and real
     ``threading`` primitives) on genuine threads, forcing the recorded interleaving.
 
@@ -835,7 +836,10 @@ def replay_real(unit: "Unit", thread_bodies: list[Callable[[], Any]], trace: lis
         tab = _stmt_table(raw)
         for co in _code_objects(raw.__code__):
             codes[co] = tab
-    n = len(thread_bodies)
+    n_bodies = len(thread_bodies)
+    # dynamic=True: the code under replay starts further threads itself (threading.Thread /
+    # Timer); they get the scheduler indices the model gave them, in start() order.
+    n = max([n_bodies] + [t + 1 for t, _f, _l in trace]) if dynamic else n_bodies
     # per-thread entry lists
     segs: list[tuple[int, int, int]] = []  # (tid, first_idx, last_idx)
     for i, (tid, _f, _l) in enumerate(trace):
@@ -856,6 +860,8 @@ def replay_real(unit: "Unit", thread_bodies: list[Callable[[], Any]], trace: lis
     cv = _real_threading.Condition()
     st = {"turn": 0, "diverged": None}
     pos = [0] * n
+    last_ev = [_time.monotonic()] * n
+    stall_s = max(0.4, 3 * slack_s)
     in_last = [False] * n
     finished = [False] * n
     results: list[Any] = [None] * n
@@ -871,20 +877,23 @@ def replay_real(unit: "Unit", thread_bodies: list[Callable[[], Any]], trace: lis
         waited = 0.0
         while st["turn"] != k and st["diverged"] is None:
             if st["turn"] > k:
-                st["diverged"] = f"thread {idx} missed its segment {k}"
+                st["diverged"] = st["diverged"] or f"thread {idx} missed its segment {k}"
                 cv.notify_all()
                 return False
             if not cv.wait(timeout=slack_s):
                 waited += slack_s
                 owner = segs[st["turn"]][0]
-                if in_last[owner] or finished[owner]:
-                    # owner is inside its segment's last statement (blocked on a real lock) or gone
+                stalled = (_time.monotonic() - last_ev[owner]) > stall_s
+                if in_last[owner] or finished[owner] or stalled:
+                    # owner is inside its segment's last statement (blocked on a real lock), gone, or has
+                    # not reached a statement for stall_s (blocked in a join()/acquire() the model treats
+                    # as returning immediately)
                     in_last[owner] = False
                     st["turn"] += 1
                     advance_past_dead()
                     cv.notify_all()
                 elif waited > timeout_s:
-                    st["diverged"] = f"thread {idx} starved waiting for segment {k} (turn {st['turn']})"
+                    st["diverged"] = st["diverged"] or f"thread {idx} starved waiting for segment {k} (turn {st['turn']})"
                     cv.notify_all()
                     return False
         return st["diverged"] is None
@@ -893,9 +902,10 @@ def replay_real(unit: "Unit", thread_bodies: list[Callable[[], Any]], trace: lis
         with cv:
             if st["diverged"] is not None or pos[idx] >= len(entries[idx]):
                 return
+            last_ev[idx] = _time.monotonic()
             f, l, k, is_first, is_last, reason, nxt = entries[idx][pos[idx]]
             if (f, l) != (fname, lineno):
-                st["diverged"] = f"thread {idx} reached {fname}:{lineno}, recorded {f}:{l} (own step {pos[idx]})"
+                st["diverged"] = st["diverged"] or f"thread {idx} reached {fname}:{lineno}, recorded {f}:{l} (own step {pos[idx]})"
                 cv.notify_all()
                 return
             pos[idx] += 1
@@ -970,15 +980,76 @@ def replay_real(unit: "Unit", thread_bodies: list[Callable[[], Any]], trace: lis
                 advance_past_dead()
                 cv.notify_all()
 
-    ths = [_real_threading.Thread(target=runner, args=(i,), daemon=True) for i in range(n)]
-    for t in ths:
-        t.start()
-    for t in ths:
-        t.join(timeout_s)
+    spawned: list[Any] = []
+    orig_start = _real_threading.Thread.start
+    tracers: dict[int, Any] = {}
+
+    def dyn_glob(frame, event, arg):  # type: ignore[no-untyped-def]
+        idx = getattr(_real_threading.current_thread(), "_coop_idx", None)
+        if idx is None:
+            return None
+        tr = tracers.get(idx)
+        if tr is None:
+            tr = tracers[idx] = make_tracer(idx)
+        return tr(frame, event, arg)
+
+    def start_wrapper(self, *a, **k):  # type: ignore[no-untyped-def]
+        if getattr(_real_threading.current_thread(), "_coop_idx", None) is None or hasattr(self, "_coop_idx"):
+            return orig_start(self, *a, **k)
+        with cv:
+            idx = n_bodies + len(spawned)
+            spawned.append(self)
+        if idx >= n:
+            st["diverged"] = st["diverged"] or f"the code started more threads ({idx + 1}) than the model ({n})"
+            return None
+        self._coop_idx = idx
+        if isinstance(self, _real_threading.Timer):
+            if not entries[idx]:
+                # in the model this timer was cancelled before it fired (it executed nothing)
+                with cv:
+                    finished[idx] = True
+                    advance_past_dead()
+                    cv.notify_all()
+                return None
+            self.interval = 0  # any timing: the statement gate decides when it runs
+        inner_run = self.run
+
+        def run_and_mark():  # type: ignore[no-untyped-def]
+            try:
+                inner_run()
+            finally:
+                with cv:
+                    finished[idx] = True
+                    in_last[idx] = False
+                    advance_past_dead()
+                    cv.notify_all()
+
+        self.run = run_and_mark
+        return orig_start(self, *a, **k)
+
+    ths = [_real_threading.Thread(target=runner, args=(i,), daemon=True) for i in range(n_bodies)]
+    for i, t in enumerate(ths):
+        t._coop_idx = i  # type: ignore[attr-defined]
+    if dynamic:
+        _real_threading.Thread.start = start_wrapper  # type: ignore[method-assign]
+        _real_threading.settrace(dyn_glob)
+    try:
+        for t in ths:
+            orig_start(t)
+        for t in ths:
+            t.join(timeout_s)
+        for t in list(spawned):
+            if getattr(t, "_started", None) is not None and t._started.is_set():
+                t.join(2.0)
+    finally:
+        if dynamic:
+            _real_threading.Thread.start = orig_start  # type: ignore[method-assign]
+            _real_threading.settrace(None)  # type: ignore[arg-type]
     STATS["real_replays"] += 1
     return {
-        "completed": all(not t.is_alive() for t in ths),
+        "completed": all(not t.is_alive() for t in ths) and all(not t.is_alive() for t in spawned),
         "diverged": st["diverged"],
+        "spawned": len(spawned),
         "segments": len(segs),
         "turn": st["turn"],
         "results": results,
